@@ -1,7 +1,24 @@
-import numpy as np
+import inspect
 import warnings
 
+import numpy as np
+
 from scipy.stats import norm
+
+
+def _predict_epistemic_std(model, X):
+    """Mean and epistemic standard deviation predicted by ``model`` at ``X``.
+
+    Used by the "deterministic" variants of the acquisition functions (``"LCBd"``, ``"EId"``,
+    ...). Only some surrogate models (the forests) can disentangle the aleatoric from the
+    epistemic uncertainty; for the other models (e.g., Gaussian process, quantile gradient
+    boosting) the plain predicted standard deviation is used.
+    """
+    if "disentangled_std" in inspect.signature(model.predict).parameters:
+        mu, _, std = model.predict(X, return_std=True, disentangled_std=True)
+    else:
+        mu, std = model.predict(X, return_std=True)
+    return mu, std
 
 
 def gaussian_acquisition_1D(
@@ -182,10 +199,7 @@ def gaussian_lcb(X, model, kappa=1.96, return_grad=False, deterministic=False):
 
         else:
             if deterministic:
-                mu, std_al, std_ep = model.predict(
-                    X, return_std=True, disentangled_std=True
-                )
-                std = std_ep
+                mu, std = _predict_epistemic_std(model, X)
             else:
                 mu, std = model.predict(X, return_std=True)
             if kappa == "inf":
@@ -246,10 +260,7 @@ def gaussian_pi(X, model, y_opt=0.0, xi=0.01, return_grad=False, deterministic=F
             )
         else:
             if deterministic:
-                mu, std_al, std_ep = model.predict(
-                    X, return_std=True, disentangled_std=True
-                )
-                std = std_ep
+                mu, std = _predict_epistemic_std(model, X)
             else:
                 mu, std = model.predict(X, return_std=True)
 
@@ -335,10 +346,7 @@ def gaussian_ei(X, model, y_opt=0.0, xi=0.01, return_grad=False, deterministic=F
 
         else:
             if deterministic:
-                mu, std_al, std_ep = model.predict(
-                    X, return_std=True, disentangled_std=True
-                )
-                std = std_ep
+                mu, std = _predict_epistemic_std(model, X)
             else:
                 mu, std = model.predict(X, return_std=True)
 
@@ -433,10 +441,7 @@ def gaussian_mes(X, model, k_samples=10, deterministic=False, random_state=None)
         warnings.simplefilter("ignore")
 
         if deterministic:
-            mu, std_al, std_ep = model.predict(
-                X, return_std=True, disentangled_std=True
-            )
-            std = std_ep
+            mu, std = _predict_epistemic_std(model, X)
         else:
             mu, std = model.predict(X, return_std=True)
 
